@@ -70,7 +70,7 @@ def run(ctx, chk):
                "" if ok else "array store reaches storage that is not a fresh copy made by this "
                "call (the argument state / current state would be modified)", ef.ev.loc,
                nontrivial=False)
-    chk.floor("C13.pure-stores", n_fresh, 8, "array stores on fresh roots")
+    chk.floor("C13.pure-stores", n_fresh, 4, "array stores on fresh roots")
     # class-level / module-level stores (HostVector layout etc.) must not happen in a step
     for ev in d.events:
         if ev.kind == "store" and ev.data["target"] == "attr" \
@@ -92,7 +92,7 @@ def run(ctx, chk):
         ok = set(k for k, _ in kinds) == {"FRESH-COPY"}
         chk.ob("C13.fresh-result", f"{K}: every exit returns a State wrapping a fresh np.copy of "
                "the input tensor", ok, str(kinds), cf.d.fi.module.path)
-    chk.floor("C13.fresh-result", n, 25, "dispatcher exits")
+    chk.floor("C13.fresh-result", n, 10, "dispatcher exits")
     # returned observation: fresh zeros
     sh = envfacts.gstep_shallow(ctx)
     obs_calls = sh.calls(GET_OBS)
